@@ -233,12 +233,15 @@ def extract_identity(tree):
             "multi": [(n, m) for (n, _, m, _) in multi], "target": targets.pop()}
 
 
-def extract(repo):
-    tree = parse(repo / SRC)
-    t = {"basis": extract_pauli_op_to_gate(tree)}
-    t.update(extract_exp_pauliword(tree))
-    t.update(extract_identity(tree))
-    # the recursive decomposition and trotterize are modelled by hand (TimeEvo.v); their shape is pinned here
+# last-known-good constants (the values regenerated from the unchanged tree).  They are used by the check ONLY
+# after the corresponding part of the source stopped being recognised (which is reported as a violation of its
+# own): the model correspondence then runs against these, and the evidence says so.
+FALLBACK = {"basis": [("X", "H", None, False), ("Y", "RX", 4, True)], "ops": ["X", "Y"], "angle": (2, 4, 2),
+            "threshold_exp10": -10, "single": [("PHASE", -1)], "multi": [("CPHASE", -2), ("CRZ", 2)], "target": 0}
+
+
+def check_shapes(tree):
+    """The recursive decomposition and trotterize are modelled by hand (TimeEvo.v); their shape is pinned here."""
     fn = find_def(tree, "recursive_trotter_suzuki_decomposition")
     src = _u(fn)
     for frag in ["[(pauli, np.real(coeff) * time) for pauli, coeff in pauli_words]",
@@ -257,7 +260,44 @@ def extract(repo):
                  "(circuit * n_trotter_steps, phase ** n_trotter_steps) if return_phase else circuit * n_trotter_steps"]:
         if frag not in src:
             raise TranslateError("trotterize: fragment not found: %s" % frag)
+
+
+def extract(repo):
+    tree = parse(repo / SRC)
+    t = {"basis": extract_pauli_op_to_gate(tree)}
+    t.update(extract_exp_pauliword(tree))
+    t.update(extract_identity(tree))
+    check_shapes(tree)
     return t
+
+
+def extract_with_fallback(repo):
+    """Piecewise extraction: (tables, {part: 'regenerated from /repo' | 'FALLBACK ...'}, [error strings]).
+    A part that is no longer recognised is replaced by its last-known-good constants and reported."""
+    t, src, errors = {}, {}, []
+    try:
+        tree = parse(repo / SRC)
+    except TranslateError as e:
+        return dict(FALLBACK), {"all": "FALLBACK (last known good): %s" % e}, [str(e)]
+    parts = [("pauli_op_to_gate", lambda: {"basis": extract_pauli_op_to_gate(tree)}, ["basis"]),
+             ("exp_pauliword_to_gates", lambda: extract_exp_pauliword(tree), ["ops", "angle"]),
+             ("identity-term / threshold", lambda: extract_identity(tree), ["threshold_exp10", "single", "multi", "target"]),
+             ("recursive decomposition / trotterize shapes", lambda: (check_shapes(tree), {})[1], [])]
+    for name, fn, keys in parts:
+        try:
+            t.update(fn())
+            src[name] = "regenerated from /repo"
+        except TranslateError as e:
+            errors.append(str(e))
+            for k in keys:
+                t[k] = FALLBACK[k]
+            src[name] = "FALLBACK (last known good constants) because: %s" % e
+        except Exception as e:      # an unexpected node type inside a matcher is also a refusal
+            errors.append("%s: %r" % (name, e))
+            for k in keys:
+                t[k] = FALLBACK[k]
+            src[name] = "FALLBACK (last known good constants) because: %r" % e
+    return t, src, errors
 
 
 def _z(k):
